@@ -31,6 +31,9 @@ class DictCursor:
 
         await _yield()
         bc = self._conn._bc
+        abefore = getattr(getattr(bc, 'backend', None), 'abefore', None)   # optional: an environment event landing just before a statement
+        if abefore is not None:
+            await abefore(sql, args)
         aexecute = getattr(bc, 'aexecute', None)   # optional: a backend that suspends inside a statement (vf.txmc)
         if aexecute is not None:
             rowcount, rows, lastrowid = await aexecute(sql, args)
